@@ -663,3 +663,33 @@ def rule_nopanic(ctx, R):
 
 
 RULES.append(("C10.NOPANIC", "no unaudited panic-capable site below optimize() (a panic there writes to the real stderr and ends the process)", rule_nopanic))
+
+
+def rule_level2(ctx, R):
+    """pre-execution (the only part of optimize() that runs program commands) happens exactly for level >= 2"""
+    from .interp import Events, normal_cfg
+    from .lang import Roles
+    fb = ctx.fb
+    b = fb.bodies.get(OPTIMIZE)
+    if not R.anchor(b is not None, "optimize", OPTIMIZE):
+        return
+    R.analyse(b.name)
+    cfg = normal_cfg(b)
+    roles = Roles(b, fb, param_roles={1: "CODE", 2: "LEVEL"})
+    ev = Events(b, fb, roles=roles)
+    ge2, lt2, other = [], [], []
+    for gb, blk in enumerate(b.blocks):
+        tt = blk["term"]
+        if tt["k"] == "switch" and not blk["cleanup"]:
+            for s_ in cfg.succ[gb]:
+                lab = ev.generic_edge(gb, tt, s_) or ""
+                if lab == "LT[LEVEL,K2]=0":
+                    ge2.append((gb, s_))
+                elif lab == "LT[LEVEL,K2]=1":
+                    lt2.append((gb, s_))
+    specs = [bi for bi, t in b.calls() if (t["f"].get("resolved") or t["f"].get("def", "")).endswith("::opt_execute")]
+    if R.anchor(len(specs) == 1 and len(ge2) == 1 and len(lt2) == 1, "level2_test", "the test `level >= 2` and the call of opt_execute in optimize()"):
+        R.check(not reaches_without(cfg, [0], specs[0], cut_edges=ge2) and not reaches_without(cfg, [lt2[0][1]], specs[0]), "level2:iff", "commands are pre-executed exactly for level >= 2", b.blocks[specs[0]]["term"]["span"]["at"])
+
+
+RULES.append(("C10.LEVEL2", "optimize() pre-executes commands exactly for level >= 2", rule_level2))
